@@ -38,6 +38,13 @@ SPEC = {
         'AITB.Trie.RIF_erase',
         'AITB.Trie.ft_filter_mem',
         'AITB.Trie.fastertrie_refines_spec',
+        'AITB.Trie.matchPart_spec',
+        'AITB.Trie.advPart_spec',
+        'AITB.Trie.run_spec',
+        'AITB.Trie.applyCursor_eq',
+        'AITB.Trie.filterCursor_eq',
+        'AITB.Trie.refineCursor_eq',
+        'AITB.Trie.trie_cursor_refines_spec',
     ],
     'harness': 'harness/c20.cpp',
     'level': 'proof',
